@@ -67,6 +67,12 @@ static std::string value(Rng& r, int depth) {
 static std::string vocabulary_program(Rng& r) {
   std::string s; int n = (int)r.range(2, 10);
   s += "va = " + scalar(r) + ";\nvt = " + TABS[r.below(sizeof(TABS) / sizeof(*TABS))] + ";\nvu = " + TUPS[r.below(5)] + ";\n";
+  if (r.chance(0.12)) { // a function declared, called, declared again in the same unit with another frame layout, called again (well-formed: the calls succeed)
+    int extra = (int)r.range(0, 6); std::string loc; for (int k = 0; k < extra; ++k) loc += "  l" + std::to_string(k) + " = " + (k % 2 ? "str(q) + \"x\"" : "q + " + std::to_string(k)) + ";\n";
+    std::string first = "function fr(p, q:integer) return integer is\nbegin\n  return q + 1;\nend;\n", second = "function fr(p, q:integer) return integer is\nbegin\n" + loc + "  for le in 1 to 2 loop\n    lf = le + q;\n  end loop;\n  return lf;\nend;\n";
+    if (r.chance(0.3)) std::swap(first, second);
+    s += first + "print fr(1, 2);\n" + (r.chance(0.5) ? "print fr(\"a\", 3);\n" : "") + second + "print fr(1, 2);\nprint fr(null, 5);\n";
+    if (r.chance(0.6)) return s; }   // on its own: an ill-typed statement further down would have the whole unit refused before anything runs
   for (int i = 0; i < n; ++i) {
     std::string v = value(r, (int)r.range(1, 3));
     switch (r.below(14)) {
@@ -79,7 +85,10 @@ static std::string vocabulary_program(Rng& r) {
     case 6: s += "forall fe in " + v + " loop\n  print fe;\n  break;\nend loop;\n"; break;
     case 7: s += "wc = 0;\nwhile " + v + " loop\n  wc = wc + 1;\n  if wc > 2 then break; end if;\nend loop;\n"; break;
     case 8: s += "do " + v + ";\n"; break;
-    case 9: s += "function fv" + std::to_string(i) + "(p, q:integer) return " + std::string(r.pick(std::vector<std::string>{"undefined", "integer", "string", "table", "tuple", "decimal"})) + " is\nbegin\n  return " + value(r, 1) + ";\nend;\nprint fv" + std::to_string(i) + "(" + scalar(r) + ", " + scalar(r) + ");\n"; break;
+    case 9: s += "function fv" + std::to_string(i) + "(p, q:integer) return " + std::string(r.pick(std::vector<std::string>{"undefined", "integer", "string", "table", "tuple", "decimal"})) + " is\nbegin\n  return " + value(r, 1) + ";\nend;\nprint fv" + std::to_string(i) + "(" + scalar(r) + ", " + scalar(r) + ");\n";
+      // the same function declared again later in the same unit (other body, more local variables), called before and after
+      if (r.chance(0.5)) { s += "function fv" + std::to_string(i) + "(p, q:integer) return " + std::string(r.pick(std::vector<std::string>{"undefined", "integer", "string", "table"})) + " is\nbegin\n  la = " + value(r, 1) + ";\n  lb = q;\n  lc = tab(2, p);\n  ld = str(lb) + \"x\";\n  for le in 1 to 2 loop\n    lf = le + lb;\n  end loop;\n  return " + value(r, 1) + ";\nend;\nprint fv" + std::to_string(i) + "(" + scalar(r) + ", " + scalar(r) + ");\n"; }
+      break;
     case 10: s += "vt = " + v + ";\nva = vt;\n"; break;
     case 11: s += "$k = " + scalar(r) + ";\n$k = " + v + ";\n"; break;
     case 12: s += "raise " + std::string(r.pick(std::vector<std::string>{"OUT_OF_RANGE", "DIVIDE_BY_ZERO", "MYERR"})) + ";\n"; break;
@@ -200,7 +209,7 @@ struct C01 : Profile {
           if (route == "library" && sr.calls > 2) { res.nontrivial = true; res.faults["stream_fragment"] += sr.calls; }
           if (!o.ok()) { classify(o, "parse"); continue; }
           exes.push_back(exe); ctx.returnCondition(false);
-          { StepGuard g(20000); Outcome ro = run_exe(exe); if (g.exceeded) ++res.probes["step_budget_stop"]; classify(ro, "run"); res.steps += g.steps; }
+          { ++res.probes["compiled_and_run_" + route]; StepGuard g(20000); Outcome ro = run_exe(exe); if (g.exceeded) ++res.probes["step_budget_stop"]; classify(ro, "run"); res.steps += g.steps; }
           ctx.returnCondition(false); delete ctx.dropReturned();
         }
         for (auto e : exes) delete e; }
@@ -209,7 +218,7 @@ struct C01 : Profile {
       try {
         bloc_executable* x = bloc_parse_executable(c, text.c_str(), &pos);
         if (!x) { ev.add("capi:parse_error"); if (!bloc_strerror() || !*bloc_strerror()) fail("C01/capi-failure-without-error-text", "bloc_parse_executable"); ++res.probes["ended_parse_error"]; }
-        else { StepGuard g(20000); bool ok = bloc_execute(x) == bloc_true; ev.add(ok ? "capi:ok" : "capi:runtime_error"); ++res.probes[ok ? "ended_ok" : "ended_runtime_error"]; if (!ok && (!bloc_strerror() || !*bloc_strerror())) fail("C01/capi-failure-without-error-text", "bloc_execute"); bloc_value* v = bloc_drop_returned(c); if (v) bloc_free_value(v); bloc_free_executable(x); }
+        else { ++res.probes["compiled_and_run_capi"]; StepGuard g(20000); bool ok = bloc_execute(x) == bloc_true; ev.add(ok ? "capi:ok" : "capi:runtime_error"); ++res.probes[ok ? "ended_ok" : "ended_runtime_error"]; if (!ok && (!bloc_strerror() || !*bloc_strerror())) fail("C01/capi-failure-without-error-text", "bloc_execute"); bloc_value* v = bloc_drop_returned(c); if (v) bloc_free_value(v); bloc_free_executable(x); }
       } catch (std::bad_alloc&) { ++res.probes["out_of_domain_allocation"]; }
         catch (std::length_error&) { ++res.probes["out_of_domain_allocation"]; }
         catch (std::exception& e) { fail("C01/exception-crossed-the-c-api", std::string(typeid(e).name()) + ": " + e.what()); }
